@@ -7,6 +7,9 @@ from copy import deepcopy
 from cisco_acl import helpers as h
 from cisco_acl.types_ import DAny, DDAny, DLStr, DStr, LDAny, LStr, OLStr
 
+# command "ip access-group NAME in|out" in the interface section (whole line, not a part of other line)
+RE_ACCESS_GROUP = r"^ip access-group (\S+) (in|out)(?: |$)"
+
 
 class ConfigParser(ABC):
     """CISCO config parser."""
@@ -294,7 +297,7 @@ class ConfigParser(ABC):
         for intf_name, intf_cfg in intfs_cfg.items():
             if not intf_name.startswith("interface "):
                 raise ValueError("invalid interface")
-            if access_group_t := re.findall(r"ip access-group (\S+) (\S+)", intf_cfg):
+            if access_group_t := re.findall(RE_ACCESS_GROUP, intf_cfg, re.M):
                 data_d: DDAny = {}  # one record per ACL name, an interface can have 2 different ACLs
                 for acl_name, direction in access_group_t:
                     if not acl_name:
@@ -372,4 +375,8 @@ class ConfigParser(ABC):
             return: {"interface GigabitEthernet1/1/1":
                      "ip address 10.0.1.1 255.255.255.0\nip access-group ACL_NAME in"}
         """
-        return {k: s for k, s in self.dic_text.items() if re.search("ip access-group", s, re.M)}
+        return {
+            k: s
+            for k, s in self.dic_text.items()
+            if k.startswith("interface ") and re.search(RE_ACCESS_GROUP, s, re.M)
+        }
